@@ -97,6 +97,15 @@ package reconciling
 //@ ensures implies(nonnil(result), same(r.lines, old(r.lines)) && forall(p, 0, len(r.lines), same(r.lines[p], old(r.lines[p]))))
 //@ before ReplaceAllString assert 0 <= openRangeEntryIndex && openRangeEntryIndex < old(len(es(r))) && openRangeValueLineIndex == old(lineOf(r, openRangeEntryIndex))
 //@ before ReplaceAllString bind oi = openRangeEntryIndex
+// only the placeholder is replaced: in the old text of the value line, [pq, pq+pn) is the first run of question marks and
+// xl the length of the end time written in its place; the text before the run is kept, and so is the text after it
+// (shifted by the change in length; further summary text may follow it)
+//@ before ReplaceAllString bind pq = firstidx(r.lines[openRangeValueLineIndex].Text, 63)
+//@ before ReplaceAllString bind pn = runlen(r.lines[openRangeValueLineIndex].Text, firstidx(r.lines[openRangeValueLineIndex].Text, 63), 63)
+//@ before ReplaceAllString bind xl = len(endTimeValue)
+//@ before ReplaceAllString bind xd = ite(strcontains(endTimeValue, "$"), 1, 0)
+//@ ensures implies(isnil(result) && xd == 0, forall(k, 0, pq, r.lines[old(lineOf(r, oi))].Text[k] == old(r.lines[lineOf(r, oi)].Text)[k]))
+//@ ensures implies(isnil(result) && xd == 0, forall(k, pq + pn, old(len(r.lines[lineOf(r, oi)].Text)), r.lines[old(lineOf(r, oi))].Text[k - pn + xl] == old(r.lines[lineOf(r, oi)].Text)[k]))
 // (the six conjuncts of closed(old lines, new lines, v, l, n) for the open range entry oi, one obligation each)
 //@ ensures implies(isnil(result), 0 <= oi && oi < old(len(es(r))) && len(r.lines) == old(len(r.lines)) + max(0, len(additionalSummary) - 1))
 //@ ensures implies(isnil(result), forall(p, 0, old(lineOf(r, oi)), same(r.lines[p], old(r.lines[p]))))
@@ -121,6 +130,12 @@ package reconciling
 //@ ensures same(r.lines, old(r.lines))
 //@ ensures implies(nonnil(result), forall(p, 0, len(r.lines), same(r.lines[p], old(r.lines[p]))))
 //@ before FindString bind pl = pauseLineIndex
+// only the duration token is replaced: [ta, tb) is the leftmost `-` followed by word characters in the old text of that
+// line (what FindString returns); the text before it is kept, and so is the text after it (shifted by the change in length)
+//@ before FindString bind ta = findlo(durationPattern, r.lines[pauseLineIndex].Text)
+//@ before FindString bind tb = findhi(durationPattern, r.lines[pauseLineIndex].Text)
+//@ ensures implies(isnil(result), forall(k, 0, ta, r.lines[pl].Text[k] == old(r.lines[pl].Text)[k]))
+//@ ensures implies(isnil(result), len(r.lines[pl].Text) - old(len(r.lines[pl].Text)) + tb >= ta && forall(k, tb, old(len(r.lines[pl].Text)), r.lines[pl].Text[k + len(r.lines[pl].Text) - old(len(r.lines[pl].Text))] == old(r.lines[pl].Text)[k]))
 //@ ensures implies(isnil(result), 0 <= pl && pl < len(r.lines) && forall(p, 0, len(r.lines), implies(p != pl, same(r.lines[p], old(r.lines[p])))) && forall(p, 0, len(r.lines), same(r.lines[p].LineEnding, old(r.lines[p].LineEnding))))
 
 // AppendPause: fails without touching the lines if there is no open range; otherwise a splice at the insertion point.
